@@ -294,7 +294,8 @@ def exhaustive_pairs(shard, nshards, names, depth, max_entries, pool):
             continue
         p1 = sorted(sh1)
         # identity k of the pool is (ino k, dev 1), or - the same trees spanning mount points - (the root's ino, dev 1+k)
-        for ident in ((lambda k: (k, 1)), (lambda k: (100, 1 + k))):
+        # (inode numbers start at 0: a number some file systems do report, and a falsy one - seeded change C09-9)
+        for ident in ((lambda k: (k - 1, 1)), (lambda k: (100, 1 + k))):
             t1 = {"": ("d", 100, 1, 0, 0)}
             for j, p in enumerate(p1):
                 t1[p] = (sh1[p], *ident(j + 1), 0, 0)
